@@ -68,7 +68,7 @@ theorem relational_correct {R : Type} [CommRing R] {o : Ops R} (ho : RingLike o)
   Family.tree_syn_sound ho (all_ok f hf) htm hw hk hks hj env
 
 /-- non-vacuity: the clamp units branch, and the table covers 37 functions -/
-example : relFamilies.length = 37 ∧ ((lookup "v_clamp" [7, 4]).out 3).leaves.length > 1 ∧
+example : relFamilies.length = 44 ∧ ((lookup "v_clamp" [7, 4]).out 3).leaves.length > 1 ∧
     ((lookup "s_clamp" []).out 0).leaves.length > 1 := by decide +kernel
 
 end Glm.Props.C01
